@@ -16,6 +16,12 @@ OBLIGATIONS.append(dict(id='C03.demorgan', engine='V', verus_fn='Parser::negate_
     desc='for condition trees of unbounded depth: sem(negate_expr_op(e)) == !sem(e) and the result is again a well-formed condition tree, where sem mirrors conforms (AND/OR over children, uninterpreted comparison atoms constrained only by atom(negate(op)) == !atom(op))'))
 OBLIGATIONS.append(dict(id='C03.negate.spec.V', engine='V', verus_fn='Op::negate', label=None, complete=True, bound=None, units=[], harness='verus:Op::negate', tier='quick',
     desc='the real Op::negate equals the documented complement table (same table as the Kani contract; ties the atom axiom to the real function)'))
+OBLIGATIONS.append(ob('C03.cache.keys', 'verif_frag::regexkeys::c12_cache_keys', 'the regex cache keys used by the glob (= !=), regex (=~ !=~) and LIKE arms of conforms are pairwise distinct for the same pattern text (3 concrete texts), so `A or B` with the same literal under two operator kinds evaluates each with its own regex', units=['regexkeys'], complete=False, bound='3 concrete pattern texts'))
+OBLIGATIONS.append(ob('C03.cache.injective', 'verif_frag::regexkeys::c12_cache_keys_injective', 'different pattern texts give different keys (2 witnesses)', units=['regexkeys'], complete=False, bound='2 concrete pairs'))
+OBLIGATIONS.append(dict(id='C03.tree.or', engine='V', verus_fn='Parser::parse_expr', label='C03.tree.or', complete=True, bound=None, units=[], harness='verus:Parser::parse_expr', tier='quick',
+    desc='real parse_expr, every iteration: the right-hand chain of an OR is built as logical(chain, Or, operand) - operator and operand order fixed'))
+OBLIGATIONS.append(dict(id='C03.tree.and', engine='V', verus_fn='Parser::parse_and', label='C03.tree.and', complete=True, bound=None, units=[], harness='verus:Parser::parse_and', tier='quick',
+    desc='real parse_and, every iteration: logical(chain, And, operand); its operands come from parse_cond and the operands of OR from parse_and (AND binds tighter - by the call structure)'))
 CANARIES = [dict(harness=CMP + 'canary_cmp_must_fail', units=['cmp']), dict(harness=LOGIC + 'canary_logic_must_fail', units=['logic']),
             dict(harness=OPS + 'canary_ops_must_fail', units=['operators'])]
 ASSUMPTIONS = ['float arm: stated for non-NaN operands (IEEE comparisons with NaN are not complements)', 'date arm: start <= finish']
